@@ -104,7 +104,7 @@ func VerifC13Accounting(strategy, features, k, arbHealth int) {
 			verifArbHealth(b)
 		}
 	}
-	sawNoBackend, sawAbort := false, false
+	sawAbort := false
 	okSeen, failedSeen, limitedSeen := 0, 0, 0
 	for i := 0; i < k; i++ {
 		if i > 0 && verifrt.Bool("timePasses") {
@@ -117,11 +117,6 @@ func VerifC13Accounting(strategy, features, k, arbHealth int) {
 		if aborted {
 			sawAbort = true
 		}
-		if rec.status == http.StatusServiceUnavailable && strings.HasPrefix(string(rec.body), "No healthy backend") {
-			sawNoBackend = true
-		}
-		verifrt.Known("C13-no-backend-unrecorded", sawNoBackend)
-		verifrt.Known("C13-abort-unrecorded", sawAbort)
 		m := lb.metricsCollector.GetMetrics()
 		verifrt.Assert(m.TotalRequests == uint64(i+1), "total_requests equals the number of requests that reached the balancer")
 		if rec.wroteHeader && !aborted {
